@@ -161,3 +161,58 @@ def proved_equal(st, ta, tb):
         if ("truthy", False) in st.facts(("call", x, "__ne__", y)):
             return True
     return False
+
+
+def targets_of(fnode, callee_suffix, idx=0):
+    """local names bound (at tuple position idx, or whole when idx is None) to the result of
+    calls whose callee text ends with callee_suffix, in source order"""
+    import ast as _ast
+    from sa.model import norm_text as _nt
+    out = []
+    for n in sorted((x for x in _ast.walk(fnode) if isinstance(x, _ast.Assign)), key=lambda x: (x.lineno, x.col_offset)):
+        if isinstance(n.value, _ast.Call) and _nt(n.value.func).endswith(callee_suffix):
+            t = n.targets[0]
+            if idx is None and isinstance(t, _ast.Name):
+                out.append(t.id)
+            elif idx is not None and isinstance(t, _ast.Tuple) and len(t.elts) > idx and isinstance(t.elts[idx], _ast.Name):
+                out.append(t.elts[idx].id)
+    return out
+
+
+def call_ordinal(fnode, call_text):
+    """(callee name, 1-based ordinal among the calls of that callee in source order) of the
+    call whose normalised text is call_text"""
+    import ast as _ast
+    from sa.model import norm_text as _nt
+    calls = sorted((x for x in _ast.walk(fnode) if isinstance(x, _ast.Call)), key=lambda x: (x.lineno, x.col_offset))
+    seen = {}
+    for c in calls:
+        nm = _nt(c.func).split(".")[-1]
+        seen[nm] = seen.get(nm, 0) + 1
+        if _nt(c) == call_text:
+            return (nm, seen[nm])
+    return None
+
+
+def as_update(stmt):
+    """(target node, operator class, operand node) of an in-place style update, written either
+    `t op= v` or `t = t op v` (or `t = v + t` for a constant v); None for anything else"""
+    import ast as _ast
+    if isinstance(stmt, _ast.AugAssign):
+        return stmt.target, type(stmt.op), stmt.value
+    if isinstance(stmt, _ast.Assign) and len(stmt.targets) == 1 and isinstance(stmt.value, _ast.BinOp):
+        t, v = stmt.targets[0], stmt.value
+        if isinstance(t, (_ast.Name, _ast.Attribute)) and _ast.dump(_strip_ctx(t)) == _ast.dump(_strip_ctx(v.left)):
+            return t, type(v.op), v.right
+        if isinstance(v.op, (_ast.Add, _ast.Mult)) and isinstance(v.left, _ast.Constant) and isinstance(v.left.value, int) and _ast.dump(_strip_ctx(t)) == _ast.dump(_strip_ctx(v.right)):
+            return t, type(v.op), v.left
+    return None
+
+
+def _strip_ctx(n):
+    import ast as _ast, copy as _copy
+    n = _copy.deepcopy(n)
+    for x in _ast.walk(n):
+        if hasattr(x, "ctx"):
+            x.ctx = _ast.Load()
+    return n
